@@ -194,6 +194,30 @@ def oracle_for(pid: str):
                 n_ops += len(h)
             for f in drv['failures']:
                 add(f['key'], f['detail'], drv['histories'][f['history']], f['index'], f"search:{ctx.seed + 7919}:{f['history']}")
+            # the free-mode histories of the tie (duplicate, late and reordered messages) restricted to their GOOD sub-history
+            # by the model's executable legality filter (BatchDB/LegalFilter.v) — first those on which the tie disagreed
+            try:
+                cand, names = [], []
+                for d in (doc['corr'].disagreements if doc.get('corr') is not None else []):
+                    hh = (d.case or {}).get('history') if isinstance(d.case, dict) else None
+                    if hh:
+                        cand.append(hh)
+                        names.append('tie-disagreement')
+                for name, hh in zip(doc['names'], doc['histories']):
+                    if name.startswith('random:'):
+                        cand.append(hh)
+                        names.append(name)
+                cand, names = cand[:ctx.scale(80, 700)], names[:ctx.scale(80, 700)]
+                good = C.legal_filtered(ctx, cand)
+                res = C.run_impl(ctx, good, 'all')
+                for name, hh, ents in zip(names, good, res['results']):
+                    n_hist += 1
+                    n_ops += len(hh)
+                    found, _hist, _last = oracles.check_history(hh, ents, props)
+                    for f in found:
+                        add(f.key, f.detail, hh, f.index, 'legal-filtered:' + name)
+            except (core.CoqEvalError, core.ImplCrash) as e:
+                keys_seen['search-error:' + type(e).__name__] = 1
         stats = {'evaluations': n_hist, 'distinct_nontrivial': len({json.dumps(h, sort_keys=True) for h in doc['histories'] if len(h) >= 5}),
                  'rule': f'oracle {pid}: property statement recomputed from the observable projection after every op of every history '
                          f'(harness/batchdb/oracles.py); {n_ops} ops',
